@@ -190,6 +190,10 @@ MUTANTS = [
     ('calls', 'starlark/src/values/layout/value.rs', '        eval.with_call_stack(self, location, |eval| {\n            self.get_ref_full().invoke(args, eval)\n        })', '        self.get_ref_full().invoke(args, eval)', 'invoke_with_loc'),
     ('strindex', STRT, 'let ind = CharIndex(i.unsigned_abs() as usize);', 'let ind = CharIndex((-i) as usize);', 'at'),
     ('strindex', STRT, 'Ok(heap.alloc(self.as_bytes()[(len_chars - ind).0] as char))', 'Ok(heap.alloc(self.as_bytes()[len_chars.0] as char))', 'at'),
+    ('strindex', STRT, 'if ind > len_chars {', 'if ind >= len_chars {', 'C01.str.at.ok_iff'),
+    ('strindex', STRT, 'Ok(heap.alloc(fast_string::at(self, len_chars - ind).unwrap()))', 'Ok(heap.alloc(fast_string::at(self, CharIndex(ind.0 - 1)).unwrap()))', 'C01.str.at.char'),
+    ('strindex', STRT, 'Ok(heap.alloc(self.as_bytes()[(len_chars - ind).0] as char))', 'Ok(heap.alloc(self.as_bytes()[ind.0 - 1] as char))', 'C01.str.at.char'),
+    ('strindex', STRT, 'match fast_string::at(self, CharIndex(i as usize)) {', 'match fast_string::at(self, CharIndex((i / 2) as usize)) {', 'C01.str.at'),
     ('smallmap', SMAP, '            // but `clear` is rare operation anyway.\n            index.clear();', '            // but `clear` is rare operation anyway.\n            let _ = index;', 'C11.smallmap.clear'),
     ('smallmap', SMAP, '        if n <= NO_INDEX_THRESHOLD {\n            SmallMap {', '        if n <= NO_INDEX_THRESHOLD + 1 {\n            SmallMap {', 'C11.smallmap.with_capacity'),
     ('smallmap', SMAP, '        if self.entries.len() <= NO_INDEX_THRESHOLD {\n            self.index = None;', '        if self.entries.len() <= NO_INDEX_THRESHOLD + 1 {\n            self.index = None;', 'C11.smallmap.maybe_drop_index'),
